@@ -61,10 +61,9 @@ func genC08(t *rapid.T) *FlowCase {
 			} else {
 				genFlowCond(t, r, nconds)
 			}
-			scopes := []string{"allow:phase"}
-			if r.Phase <= 2 {
-				scopes = append(scopes, "allow:request")
-			}
+			// allow:request in a response or logging phase has no request phase left to cover: it must not
+			// reach past the phase it was raised in
+			scopes := []string{"allow:phase", "allow:request"}
 			if r.Phase <= 4 {
 				scopes = append(scopes, "allow", "allow")
 			}
